@@ -228,7 +228,18 @@ def fac3():
     return 3
 
 
-FACTORIES = {0: None, 1: list, 2: int, 3: fac3}
+class _HistFactory:
+    """default_factory of history-built defaultdicts: hands out the leaf the model says __missing__ creates"""
+    pending = None
+
+    def __call__(self):
+        leaf, self.pending = self.pending, None
+        assert leaf is not None
+        return leaf
+
+
+hist_factory = _HistFactory()
+FACTORIES = {0: None, 1: list, 2: int, 3: fac3, 4: hist_factory}
 FACTORY_ID = {v: k for k, v in FACTORIES.items()}
 
 # the registry world W0 = Reg0 of the specification
@@ -292,8 +303,43 @@ class Ctx:
 from harness.vuniv_model import T  # noqa: E402,F401
 
 
-def realise(t, ctx):
+def realise_hist(h, ctx):
+    """Replay an operation history (HistGen) on a real container, so that its storage order differs from its logical order."""
+    kind = h['kind']
+    c = {'dict': dict, 'odict': OrderedDict}[kind]() if kind in ('dict', 'odict') else \
+        defaultdict(hist_factory) if kind == 'ddict' else deque(maxlen=h['maxlen'] - 1)
+
+    def leaf(v):
+        o = Leaf(v)
+        ctx.bind(o, v)
+        return o
+    for op, k, v in h['ops']:
+        key = mk_key(k) if kind != 'deque' else None
+        if op == 'set':
+            c[key] = leaf(v)
+        elif op == 'del':
+            del c[key]
+        elif op == 'move':
+            c.move_to_end(key, last=bool(v))
+        elif op == 'miss':
+            hist_factory.pending = leaf(v)
+            c[key]          # noqa: B018  -- __missing__ inserts
+        elif op == 'append':
+            c.append(leaf(v))
+        elif op == 'appendleft':
+            c.appendleft(leaf(v))
+        elif op == 'rotate':
+            c.rotate(v)
+        else:
+            raise ValueError(op)
+    ctx.bind(c, h['id'])
+    return c
+
+
+def realise(t, ctx, subst=None):
     k = t['k']
+    if subst and t['id'] in subst:
+        return subst[t['id']]
     if k == 'none':
         return None
     if k == 'leaf':
@@ -301,7 +347,7 @@ def realise(t, ctx):
             return ctx.by_id[t['id']]
         o = Leaf(t['id'])
     else:
-        kids = [realise(c, ctx) for c in t['ch']]
+        kids = [realise(c, ctx, subst) for c in t['ch']]
         if k == 'tuple':
             o = tuple(kids)
         elif k == 'list':
